@@ -269,6 +269,11 @@ class PoolHarness(object):
                              "join(%s) returned True while task(s) %s enqueued before the call had not finished" % (timeout, unfinished))
             if not r and timeout is None:
                 self.bad("C11", "C11/untimed-join-returned-false", "join() returned %r" % (r,))
+            if r and timeout is not None and phase == "running" and stops_before == stops_after:
+                # a timed join that returned True although a gate nobody can have opened was still closed
+                stuck = [t.tid for t in before if t.kind == "gated" and t.gate_open_step is None and not t.exited]
+                if stuck:
+                    self.bad("C11", "C11/timed-join-true-while-task-unfinished", "join(%s) returned True while gated task(s) %s had not been released" % (timeout, stuck))
         elif name == "sleep":
             s.sleep(op[1])
         elif name == "settle":
@@ -500,6 +505,7 @@ CURATED = {
     "P18-chain-after-restart": ([("start",), ("enq", "ret"), ("join", BIG), ("stop",), ("start",), ("chain", 0, 2), ("chain", 1, 2), ("result", "c0", BIG)], None),
     "P19-chain-with-second-submitter": ([("start",), ("spawn",), ("chain", 0, 2), ("chain", 1, 2), ("joinsub",), ("result", "c0", BIG)], [("enq", "ret"), ("enq", "ret")]),
     "P20-timed-join-with-gated": ([("start",), ("enq", "gated"), ("join", 5), ("open", "c0"), ("join", BIG)], None),
+    "P34-join-zero-timeout": ([("start",), ("enq", "gated"), ("join", 0), ("join", 0.0), ("open", "c0"), ("join", BIG), ("join", 0)], None),
     "P21-stop-with-join-racing": ([("start",), ("enq", "ret"), ("spawn",), ("stop",), ("joinsub",)], [("join", BIG)]),
     "P22-backlog-then-chain": ([("enq", "ret"), ("enq", "ret"), ("enq", "ret"), ("start",), ("join", BIG), ("sleep", 61), ("chain", 0, 2), ("chain", 1, 2), ("result", "c3", BIG)], None),
     "P23-chain3": ([("start",), ("chain", 0, 3), ("chain", 1, 3), ("chain", 2, 3), ("result", "c0", BIG)], None),
